@@ -148,7 +148,10 @@ Grid(sc) == IF sc.step = 0 THEN <<sc.start>>
             ELSE [i \in 1..((sc.end - sc.start) \div sc.step + 1) |-> sc.start + (i - 1) * sc.step]
 
 \* seconds value of tick t
-Seconds(sc, t) == IF (t * sc.tickms) % 1000 = 0 THEN I((t * sc.tickms) \div 1000) ELSE Opaque
+\* (a replayed scenario may have been moved to a present-day time base: the traces report times relative to it, but
+\*  the values of time() and timestamp() are absolute then - OPAQUE here, compared with the reference engine)
+Seconds(sc, t) == IF "base" \in DOMAIN sc /\ sc.base # 0 THEN Opaque
+                  ELSE IF (t * sc.tickms) % 1000 = 0 THEN I((t * sc.tickms) \div 1000) ELSE Opaque
 
 \* ------------------------------------------------------------------ selection
 \* index of the selected sample of series d at reference time ref, 0 if none
